@@ -44,7 +44,8 @@ Rows(k) ==
     [] k = "individuals" -> <<[flags |-> 0, location |-> <<>>, parents |-> <<>>, metadata |-> <<>>],
                                [flags |-> 3, location |-> <<1, 2>>, parents |-> <<0, -1>>, metadata |-> <<5>>],
                                [flags |-> 1, location |-> <<7>>, parents |-> <<1>>, metadata |-> <<255, 0>>]>>
-    [] k = "populations" -> <<[metadata |-> <<1>>], [metadata |-> <<2, 3>>]>>
+    \* a population without metadata is an empty field - an empty *line* when metadata is the only column in the file
+    [] k = "populations" -> <<[metadata |-> <<1>>], [metadata |-> <<>>], [metadata |-> <<2, 3>>], [metadata |-> <<>>]>>
     [] k = "migrations" -> <<[left |-> 0, right |-> 2, node |-> 1, source |-> 0, dest |-> 1, time |-> 2, metadata |-> <<4>>],
                               [left |-> 1, right |-> 5, node |-> 0, source |-> 1, dest |-> 0, time |-> 3, metadata |-> <<>>]>>
 =============================================================================
